@@ -89,6 +89,25 @@ Theorem c16_due_timer_fires : forall alloc pickc, allocator_ok alloc -> cancel_t
 Proof. exact t_due_fires. Qed.
 Print Assumptions c16_due_timer_fires.
 
+(* The interval ExecuteTimeouts returns ("time until the next event", used by the pollers as the sleep time)
+   is never negative, for any number of timers and any callbacks: it is 0 exactly when the queue is empty and
+   strictly positive otherwise (every due timer has been served, c16_fires_when_due, which holds for ANY number
+   of timers); the model's N-valued [next_in] (the key compared with the implementation) is that value. *)
+Theorem c16_next_interval_nonneg : forall alloc pickc s cbs s' now',
+  do_exec alloc pickc s cbs = Some (s', now') ->
+  (0 <= next_in_z s' now')%Z /\ Z.of_N (next_in s' now') = next_in_z s' now' /\
+  (q s' <> [] -> (0 < next_in_z s' now')%Z).
+Proof. exact t_next_nonneg. Qed.
+Print Assumptions c16_next_interval_nonneg.
+
+(* An idle poller iteration never sleeps past the next deadline (EPoller: truncated to whole milliseconds,
+   SelectPoller: exact), and the timers are then run against a FRESH clock reading (poll_once), so
+   c16_not_early applies to timers served after a sleep as well. *)
+Theorem c16_poll_sleep_bounded : forall epoll s now b e,
+  peek s = Some e -> now < enext e -> now + poll_sleep epoll s now b <= enext e.
+Proof. exact (t_poll_sleep_bounded (fun _ _ => 0) (fun _ _ => None)). Qed.
+Print Assumptions c16_poll_sleep_bounded.
+
 (* Single-shot timers fire once: no other firing in the whole trace has the same serial. *)
 Theorem c16_single_once : forall alloc pickc, allocator_ok alloc -> cancel_target_ok pickc ->
   forall ops s l1 l2 e now, run alloc pickc init ops = Some s ->
